@@ -230,7 +230,7 @@ func runC19(c *core.Ctx) {
 		if !c.Want(caseID) {
 			continue
 		}
-		e := &c19env{t: t, ch: ch, pair: dyn.Pairs[t.ID][t.ID]}
+		e := &c19env{t: t, ch: ch, pair: t.SelfPair}
 		// conversions with this type as source (readers) / destination (writers)
 		for _, cv := range dyn.Convs {
 			if cv.S == t {
